@@ -58,6 +58,7 @@ func checkC07(c *h.Check) {
 	thorough := c.Tier == "thorough"
 	var cases []*h.Case
 	outcomes := tally{}
+	var scalExtra []*h.Case // run like the scaling family: alone, under the caps, through gen, check and show
 	addGraph := func(id string, prog *ir.Program) {
 		cs := caseFromProgram(id, prog, true, nil)
 		if c.NoteProgram(cs.Files) {
@@ -203,14 +204,83 @@ func checkC07(c *h.Check) {
 	}
 	cases = append(cases, incomplete...)
 
+	// Family D: bindings that wait for each other (interfaces with one and the same method set bound in a circle, and
+	// a chain leading into such a circle): rejected, and above all the analysis terminates
+	for shape := 0; shape < 3; shape++ {
+		for place := 0; place < 3; place++ {
+			b := ir.NewBuilder()
+			p := b.Root
+			base := b.Iface(p, "Reader")
+			mk := func(name string) *ir.Type {
+				t := b.Iface(p, name, base)
+				t.Bare = true
+				return t
+			}
+			src, buf, in := mk("Source"), mk("Buffer"), mk("Input")
+			var binds []*ir.Item
+			switch shape {
+			case 0:
+				binds = []*ir.Item{ir.BindItem(base, src), ir.BindItem(src, base)}
+			case 1:
+				binds = []*ir.Item{ir.BindItem(in, base), ir.BindItem(base, src), ir.BindItem(src, buf), ir.BindItem(buf, base)}
+			case 2:
+				binds = []*ir.Item{ir.BindItem(src, buf), ir.BindItem(buf, in), ir.BindItem(in, src)}
+			}
+			app := b.Leaf(p, "App")
+			need := binds[0].T
+			newApp := ir.FuncItem(&ir.Func{Pkg: p, Name: "NewApp", Params: []*ir.Type{need}, Out: app})
+			inj := &ir.Injector{Name: "Init", Out: app}
+			prog := &ir.Program{Root: p, Injectors: []*ir.Injector{inj}}
+			switch place {
+			case 0:
+				inj.Items = append([]*ir.Item{newApp}, binds...)
+			case 1:
+				inj.Items = []*ir.Item{newApp, ir.SetRef(&ir.Set{Pkg: p, Name: "Circle", Items: binds})}
+			case 2: // the circle sits in a set no injector uses
+				inj.Items = []*ir.Item{ir.FuncItem(&ir.Func{Pkg: p, Name: "NewApp0", Out: app})}
+				prog.ExtraSets = []*ir.Set{{Pkg: p, Name: "Circle", Items: binds}}
+				prog.ExtraTypes = []*ir.Type{base, src, buf, in}
+			}
+			id := fmt.Sprintf("C07/binding-circle/shape=%d/place=%d", shape, place)
+			cs := caseFromProgram(id, prog, false, nil)
+			if place == 2 {
+				// gen does not look at sets no injector uses; nothing to demand of it but termination
+				cs.Judge = func(r *h.Result) []h.Violation { return judgeVerdict(r, nil) }
+			} else {
+				reasons := []ir.Reason{{Class: "cycle"}, {Class: "bind-unprovided", Subject: binds[0].Conc.Key()}, {Class: "bind-unprovided", Subject: binds[1].Conc.Key()}, {Class: "bind-unprovided", Subject: binds[len(binds)-1].Conc.Key()}}
+				cs.Judge = func(r *h.Result) []h.Violation { return judgeVerdict(r, reasons) }
+			}
+			scalExtra = append(scalExtra, cs)
+		}
+	}
 	// Family C: deterministic scaling families, each alone under a time cap.
-	scal := scalingCases(thorough)
+	scal := append(scalingCases(thorough), scalExtra...)
 	rn := h.NewRunner(c.S)
 	rn.Deadline = c.Deadline
 	rn.BatchSize = 1
 	rn.Workers = 8
-	rn.GenTimeout = 60 * time.Second
-	rn.SoloTimeout = 60 * time.Second
+	rn.GenTimeout = 30 * time.Second
+	rn.SoloTimeout = 30 * time.Second
+	// analysis terminates under every sub-command: the same trees go through wire check and wire show
+	rn.AlsoCheck, rn.AlsoShow = true, true
+	for _, cs := range scal {
+		inner := cs.Judge
+		cs.Judge = func(r *h.Result) []h.Violation {
+			vs := inner(r)
+			for _, ro := range []struct {
+				name  string
+				diags []string
+			}{{"check", r.CheckDiags}, {"show", r.ShowDiags}} {
+				for _, d := range ro.diags {
+					if strings.HasPrefix(d, "CRASH:") {
+						vs = append(vs, h.Violation{Symptom: ro.name + "-timeout-or-crash", Detail: "wire " + ro.name + " did not terminate normally within the cap on a program wire gen handles:\n" + clip(d, 1200)})
+						break
+					}
+				}
+			}
+			return vs
+		}
+	}
 	saved := c.R
 	c.R = rn
 	sres := c.JudgeAll(scal)
@@ -233,7 +303,7 @@ func checkC07(c *h.Check) {
 	c.Coverage["traces_validated_against_impl"] = total
 	c.Coverage["evaluations"] = total
 	c.Coverage["distinct_nontrivial"] = c.DistinctPrograms()
-	c.Coverage["rule"] = "every labelled digraph (self-loops included) on <=3 nodes (thorough: 4) rendered as a Wire program; x placement (one named set / direct / one named set per node, so that a cycle exists only in the union / inline set) x one node re-typed as struct/field/binding edge; plus fan-lassos (chain of length 0..10 to a provider with 2-3 arguments, cycle through each argument position, closing at the fan node / chain start / chain middle); plus incomplete acyclic programs (every single item of every accepted base on 2-3 nodes left out: the planner must report and stop); plus deterministic deep/wide scaling graphs. Distinct = distinct rendered source text. Non-trivial: all (each is a different graph)."
+	c.Coverage["rule"] = "every labelled digraph (self-loops included) on <=3 nodes (thorough: 4) rendered as a Wire program; x placement (one named set / direct / one named set per node, so that a cycle exists only in the union / inline set) x one node re-typed as struct/field/binding edge; plus fan-lassos (chain of length 0..10 to a provider with 2-3 arguments, cycle through each argument position, closing at the fan node / chain start / chain middle); plus incomplete acyclic programs (every single item of every accepted base on 2-3 nodes left out: the planner must report and stop); plus deterministic deep/wide scaling graphs, each also run through wire check and wire show under the same caps. Distinct = distinct rendered source text. Non-trivial: all (each is a different graph)."
 	c.Coverage["outcomes"] = outcomes.summary()
 	c.Coverage["scaling_cases"] = len(scal)
 	if len(cases) > 0 {
@@ -243,7 +313,7 @@ func checkC07(c *h.Check) {
 		c.Samples = append(c.Samples, scal[0].ID)
 	}
 	c.Assumptions = append(c.Assumptions,
-		"termination is decided by completion under a 60 s cap and a 2 GiB address-space cap per scaling program (measured: <0.1 s); growth is not measured",
+		"termination is decided by completion under a 30 s cap and a 2 GiB address-space cap per scaling program (measured: <0.1 s); growth is not measured",
 		"graphs larger than the stated N only through the deterministic scaling families (chain, diamond ladder, complete DAG, fan-out)")
 	if c.Only == "" && (outcomes["rejected"] == 0 || outcomes["accepted+ran"] == 0) {
 		c.Internalf("vacuous: outcomes %v", outcomes)
